@@ -316,6 +316,12 @@ func cmdCheck(args []string) int {
 	}
 
 	e := NewEngine(*repo, filepath.Join(work, "smt"))
+	e.knownOpen = map[string]bool{}
+	for _, k := range known {
+		if k.Status == "known" && k.Property == *prop {
+			e.knownOpen[k.Obligation] = true
+		}
+	}
 	os.MkdirAll(e.workdir, 0755)
 	var loadErr error
 	var wreports []WitnessReport
